@@ -1,36 +1,11 @@
 //# target src/value/mod.rs
 //# include ../common/value_helpers.rs
+//# include ../common/cmp_oracles.rs
 
     // =====================================================================================
     // C07 — order / equality / hash laws of Value on the scalar kinds
     // =====================================================================================
     use std::hash::Hasher as _;
-
-    // ---- exact mathematical comparison oracles (no lossy casts)
-    const TWO63: f64 = 9223372036854775808.0;
-    const TWO64: f64 = 18446744073709551616.0;
-    const TWO127: f64 = 170141183460469231731687303715884105728.0;
-    const TWO128: f64 = 340282366920938463463374607431768211456.0;
-
-    /// exact order of a non-NaN float against an i128
-    fn oracle_f_i(f: f64, i: i128) -> Ordering {
-        if f >= TWO127 { return Ordering::Greater; }
-        if f < -TWO127 { return Ordering::Less; }
-        let t = f.trunc();
-        let ti = t as i128; // exact: -2^127 <= t < 2^127
-        if ti < i { Ordering::Less } else if ti > i { Ordering::Greater }
-        else if f > t { Ordering::Greater } else if f < t { Ordering::Less } else { Ordering::Equal }
-    }
-    /// exact order of a non-NaN float against a u128
-    fn oracle_f_u(f: f64, u: u128) -> Ordering {
-        if f >= TWO128 { return Ordering::Greater; }
-        if f < 0.0 { return Ordering::Less; }
-        let t = f.trunc();
-        let tu = t as u128; // exact: 0 <= t < 2^128
-        if tu < u { Ordering::Less } else if tu > u { Ordering::Greater }
-        else if f > t { Ordering::Greater } else { Ordering::Equal }
-    }
-    fn oracle_i_u(i: i128, u: u128) -> Ordering { if i < 0 { Ordering::Less } else { (i as u128).cmp(&u) } }
 
     // ---- O1: the numeric comparison helpers against the oracles
 //# ob name=cmp_i128_u128_exact fn=value::cmp_i128_u128 kind=complete stmt="cmp_i128_u128 is the mathematical order for all i128 x u128"
